@@ -12,7 +12,7 @@ per-snippet histories.
 import json
 
 from ..prng import Rng, derive
-from ..values import num, s, cls, first_diff, ERROR_KINDS
+from ..values import num, s, cls, first_diff, ERROR_KINDS, WILD
 from ..core import process_outcome, Stats, stable_hash
 
 import os
@@ -138,6 +138,8 @@ class Gen:
                 out.append(["callcap", k, self.id()])
             elif kind == "callhook":
                 out.append(["callhook", r.below(4), self.id()])
+            elif kind == "manyranges":
+                out.append(["manyranges", self.id()])
             elif kind == "overflow":
                 out.append(["overflow", self.id()])
             elif kind == "alias":
@@ -165,7 +167,7 @@ class Gen:
 
 KINDS_W = [("set", 10), ("inc", 10), ("assign", 6), ("chk", 12), ("probe", 10), ("call", 12), ("tryfin", 8), ("trycatch", 6),
            ("fiber", 6), ("fiber2", 4), ("method", 5), ("classcrash", 3), ("deffn", 5), ("callfn", 7), ("defclass", 4),
-           ("useclass", 5), ("deffiber", 4), ("resume", 7), ("import", 6), ("modcall", 6), ("throw", 5), ("poke", 3), ("corelib", 6), ("shadow", 4), ("useshadow", 6), ("capcrash", 5), ("callcap", 7), ("callhook", 7), ("setrange", 3), ("cmprange", 5), ("overflow", 3), ("throwbig", 3), ("showbig", 5), ("alias", 3), ("usealias", 5), ("capcrash2", 4), ("callcap2", 6), ("deepchain", 2), ("probechain", 4)]
+           ("useclass", 5), ("deffiber", 4), ("resume", 7), ("import", 6), ("modcall", 6), ("throw", 5), ("poke", 3), ("corelib", 6), ("shadow", 4), ("useshadow", 6), ("capcrash", 5), ("callcap", 7), ("callhook", 7), ("setrange", 3), ("cmprange", 5), ("manyranges", 2), ("overflow", 3), ("throwbig", 3), ("showbig", 5), ("alias", 3), ("usealias", 5), ("capcrash2", 4), ("callcap2", 6), ("deepchain", 2), ("probechain", 4)]
 
 
 def gen_session(seed):
@@ -339,7 +341,13 @@ def render_snip(stmts, uid, stale=()):
             # cache never evicts and an equal range literal evaluated later is == to it (and finds it as a map key)
             out.append("var rg%d = %d..%d;" % (st[1], st[1] + 1, st[1] + 5))
         elif k == "cmprange":
-            out.append('print(("ev", %d, rg%d == %d..%d, {rg%d: 1}.has_key(%d..%d)));' % (st[2], st[1], st[1] + 1, st[1] + 5, st[1], st[1] + 1, st[1] + 5))
+            # (a throw-away range of its own first: one more distinct range for the interpreter's cache to cope with)
+            out.append('var tr%s = 900..%d; print(("ev", %d, rg%d == %d..%d, {rg%d: 1}.has_key(%d..%d)));' % (
+                u, 901 + st[2], st[2], st[1], st[1] + 1, st[1] + 5, st[1], st[1] + 1, st[1] + 5))
+        elif k == "manyranges":
+            # ten distinct ranges at once: more than the interpreter's range cache holds
+            out.append('var mr%s = 0; for q in [100..101, 100..102, 100..103, 100..104, 100..105, 100..106, 100..107, 100..108, 100..109, 100..110] { mr%s = mr%s + 1; } print(("ev", %d, mr%s));' % (
+                u, u, u, st[1], u))
         elif k == "corelib":
             # names and classes the core library defines: present on a new interpreter, so present after every snippet and reset
             out.append('print(("ev", %d, [1, 2].iter().map(|x| { return x + 1; }).collect(), [1, 2, 3].iter().filter(|x| { return x != 2; }).collect(), '
@@ -394,7 +402,7 @@ def model(ir, faults):
 
     def fresh():
         st.clear()
-        st.update(G={}, funcs={}, classes={}, fibers={}, names=set(), mods={}, shadows={}, caps={}, oneshot=set(), hooks=[], ranges=set(), bigs=set(), aliases=set(), caps2={}, chains=set())
+        st.update(G={}, funcs={}, classes={}, fibers={}, names=set(), mods={}, shadows={}, caps={}, oneshot=set(), hooks=[], ranges=set(), bigs=set(), aliases=set(), caps2={}, chains=set(), range_age={})
 
     fresh()
 
@@ -687,14 +695,28 @@ def model(ir, faults):
                 elif k == "overflow":
                     probes.inc("frame_limit_reached_and_caught")
                     ev.append([num(stt[1]), cls("IndexError"), s("Stack overflow.")])
+                elif k == "manyranges":
+                    for k_ in st["range_age"]:
+                        st["range_age"][k_] += 10
+                    ev.append([num(stt[1]), num(10)])
                 elif k == "setrange":
                     st["ranges"].add(stt[1])
+                    for k_ in st["range_age"]:
+                        st["range_age"][k_] += 1
+                    st["range_age"][stt[1]] = 0
                 elif k == "cmprange":
                     if stt[1] not in st["ranges"]:
                         probes.inc("crash_at:nameerror_top")
                         raise Crash("NameError")
-                    probes.inc("range_from_earlier_snippet_compared")
-                    ev.append([num(stt[2]), {"b": True}, {"b": True}])
+                    for k_ in st["range_age"]:
+                        st["range_age"][k_] += 1          # the throw-away range
+                    if st["range_age"].get(stt[1], 99) <= 6:
+                        # fewer distinct ranges have been created since this one than the cache holds: an equal literal is the same object
+                        probes.inc("range_from_earlier_snippet_compared")
+                        ev.append([num(stt[2]), {"b": True}, {"b": True}])
+                    else:
+                        probes.inc("range_comparison_after_cache_turnover_not_asserted")
+                        ev.append([num(stt[2]), WILD, WILD])
                 elif k == "corelib":
                     probes.inc("core_library_used")
                     ev.append([num(stt[1]), {"v": [num(2), num(3)]}, {"v": [num(1), num(3)]}, cls("ErrorClass"), num(5),
